@@ -480,14 +480,14 @@ def route_module(mod):
     undo = []
     mod.__dict__.update(HELPERS)
     for name, obj in list(vars(mod).items()):
-        if inspect.isfunction(obj) and obj.__module__ == mod.__name__:
+        if inspect.isfunction(obj) and obj.__module__ == mod.__name__ and obj.__code__.co_filename == getattr(mod, "__file__", None):
             new = _routed(obj)
             if new is not None:
                 undo.append((mod, name, obj))
                 setattr(mod, name, new)
         elif inspect.isclass(obj) and obj.__module__ == mod.__name__:
             for an, av in list(vars(obj).items()):
-                if inspect.isfunction(av):
+                if inspect.isfunction(av) and av.__code__.co_filename == getattr(mod, "__file__", None):
                     new = _routed(av)
                     if new is not None:
                         undo.append((obj, an, av))
